@@ -29,7 +29,7 @@ ASSUMPTIONS = [
     "float64 (jax_enable_x64), CPU backend",
     "NumPy reference model vlib/refmodel.py (about 300 lines) and the IR renderer are trusted",
     "user functions are drawn from the IR grammar (tables over discrete variables, smooth terms over continuous ones)",
-    "bounds: <=3 discrete + 2 continuous states, <=3+2 choices, grids <=6 nodes, T<=4, <=60000 state-choice points",
+    "bounds (quick): <=3 discrete + 2 continuous states, <=3+2 choices, grids <=6 nodes, T<=4, <=60000 state-choice points; the thorough tier adds a stream with <=3 continuous states and choices, grids <=7 nodes, T<=5, <=250000 points",
 ]
 
 PROFILE = Profile()
@@ -42,6 +42,8 @@ PROFILE_DROP = Profile(name="drop_filter", p_filter=1.0, filter_modes=("drop",),
                        min_periods=2, max_cont_states=1, max_cont_choices=1)
 
 
+PROFILE_BIG = Profile(name="big", max_periods=5, max_cont_states=3, max_cont_choices=3, max_cont_state_nodes=7,
+                      max_cont_choice_nodes=7, max_points=250_000, p_filter=0.6, p_stoch=0.35)
 PROFILE_MULTI = Profile(name="multi_filter", p_filter=1.0, filter_modes=("keep_all", "keep_all", "free"),
                         p_period_filter=0.8, min_periods=3, max_cont_states=1, max_cont_choices=1, max_R=3)
 
@@ -64,6 +66,13 @@ def strategy(tier):
         lambda spec: {"spec": spec.to_json(), "jit_off": False, "infeasible_ok": True},
         model_specs(PROFILE_INFEASIBLE),
     )
+    if tier == "thorough":
+        # deeper bounds: up to 3 continuous states / choices, 5 periods, larger grids
+        big = st.builds(
+            lambda spec: {"spec": spec.to_json(), "jit_off": False},
+            model_specs(PROFILE_BIG),
+        )
+        return st.one_of(base, base, base, drop, drop, multi, inf, big, big)
     return st.one_of(base, base, base, drop, drop, multi, inf)
 
 
